@@ -1,8 +1,11 @@
 package c03
 
 import (
+	"bytes"
 	"encoding/json"
 	"fmt"
+	"net/http"
+	"net/http/httptest"
 	"testing"
 	"time"
 
@@ -73,6 +76,8 @@ func runIndependent(c ICase) (ev.Info, error) {
 			}
 			d.Schedules = append(d.Schedules, hcfg.Sched{Name: "in-" + q, Crontab: crontabFor(h, q), Queue: qq})
 		}
+		// every hook also serves an admission webhook: such requests are executed outside the queues
+		d.Validating = []hcfg.Adm{{Name: fmt.Sprintf("val-h%d.example.com", h), Rules: []hcfg.AdmRule{{Operations: []string{"CREATE"}, APIGroups: []string{""}, APIVersions: []string{"v1"}, Resources: []string{"pods"}}}}}
 		var rules []vh.Rule
 		if h == c.ParkH {
 			rules = append(rules, vh.Rule{Match: fmt.Sprintf(`"binding": "in-%s"`, c.ParkQ), Times: 1, Do: vh.Behaviour{Gate: "g0"}})
@@ -97,6 +102,43 @@ func runIndependent(c ICase) (ev.Info, error) {
 		return false
 	}); !ok {
 		return info, fmt.Errorf("harness: the execution to be parked did not start")
+	}
+	// more work for the parked hook piles up behind its running execution, then an admission request for that hook
+	// is served: it runs at once, outside the queues, with nothing but its own context
+	env.Tick(crontabFor(c.ParkH, c.ParkQ))
+	env.Tick(crontabFor(c.ParkH, c.ParkQ))
+	env.Tick("59 23 31 12 *")
+	env.Tick("59 23 31 12 *")
+	{
+		body, _ := json.Marshal(map[string]any{"apiVersion": "admission.k8s.io/v1", "kind": "AdmissionReview", "request": map[string]any{
+			"uid": "adm-uid", "kind": map[string]any{"group": "", "version": "v1", "kind": "Pod"}, "resource": map[string]any{"group": "", "version": "v1", "resource": "pods"},
+			"operation": "CREATE", "namespace": "default", "name": "p", "object": map[string]any{"apiVersion": "v1", "kind": "Pod", "metadata": map[string]any{"name": "p", "namespace": "default"}}}})
+		req := httptest.NewRequest(http.MethodPost, fmt.Sprintf("/hooks/val-h%d-example-com", c.ParkH), bytes.NewReader(body))
+		req.Header.Set("Content-Type", "application/json")
+		served := make(chan struct{})
+		go func() {
+			defer close(served)
+			env.Op.AdmissionWebhookManager.Handler.Router.ServeHTTP(httptest.NewRecorder(), req)
+		}()
+		select {
+		case <-served:
+		case <-time.After(8 * time.Second):
+			kit.Must(env.Tree.OpenGate("g0"))
+			<-served
+			return info, fmt.Errorf("an admission request for hook %s was not answered within 8s while an execution of that hook is running in queue %s", name(c.ParkH), c.ParkQ)
+		}
+		rs, _ := env.Tree.ReadLog()
+		for _, r := range rs {
+			if r.Phase != "start" || r.Hook != name(c.ParkH) {
+				continue
+			}
+			var arr []map[string]any
+			_ = json.Unmarshal(r.Context, &arr)
+			if len(arr) > 0 && arr[0]["type"] == "Validating" && len(arr) != 1 {
+				kit.Must(env.Tree.OpenGate("g0"))
+				return info, fmt.Errorf("OBSERVED: the execution of hook %s for an admission request carries %d binding contexts: tasks waiting in queue %s were executed outside their queue", name(c.ParkH), len(arr), c.ParkQ)
+			}
+		}
 	}
 	// every binding of every other queue fires, several rounds
 	expected := 0
@@ -194,7 +236,7 @@ func firstBindingOf(rs []vh.Record, end vh.Record) string {
 	return ""
 }
 
-const ruleIndependent = "the real operator with 1-3 hooks, each with one schedule binding in each of a generated subset of the queues main/q1/q2; one execution (hook, queue) is parked on a gate, then every binding of every other queue fires 1-3 times; oracle: for every (hook, other queue) an execution ends within 8s while the parked one is still running - also for the hook whose execution is parked. Non-trivial: the parked hook has a binding in another queue."
+const ruleIndependent = "the real operator with 1-3 hooks, each with one schedule binding in each of a generated subset of the queues main/q1/q2; every hook also declares an admission webhook; one execution (hook, queue) is parked on a gate, two more ticks for it queue up behind it and an admission request for that hook is served (at once, with its own context only), then every binding of every other queue fires 1-3 times; oracle: for every (hook, other queue) an execution ends within 8s while the parked one is still running - also for the hook whose execution is parked. Non-trivial: the parked hook has a binding in another queue."
 
 func TestQueuesIndependent(t *testing.T) {
 	ev.Main(t, ev.Spec[ICase]{Property: "C03", Part: "independent", Rule: ruleIndependent, Gen: genIndependent, Run: runIndependent, Journal: true})
